@@ -790,9 +790,10 @@ def run(ctx):
     r01_13_is_terminal(ctx)
     r01_4e_flatten_traces(ctx)
     r01_14_compile_subroutine(ctx)
-    from rules.lowering_sem import r01_3e_constructs
+    from rules.lowering_sem import r01_3e_constructs, r01_15_pipeline
 
     r01_3e_constructs(ctx)
+    r01_15_pipeline(ctx)
     r01_7_replace_total(ctx)
     r01_8_api_ops(ctx)
     r01_10_routine_epilogue(ctx)
